@@ -945,16 +945,20 @@ Proof.
 Qed.
 
 (* ---------- supla_esp_countdown_timer_countdown ---------- *)
-Lemma countdown_spec e c ms gpio ch target sender s s' :
+(* first half: a free slot is taken and filled (state s3); second half: startstop or, repaired, the callback body *)
+Lemma countdown_arm e c ms gpio ch target sender s s' :
   s' = countdown e c ms gpio ch target sender s ->
-  Good s -> 0 < ms < 4294967296 -> 0 <= ch < 255 -> (forall x, In x (slots s) -> s_chan x <> ch) -> NW s' ->
-  Good s' /\ frame s s' /\ now s' <= now s + 8 * OP /\ evo (fun k => k = ch) s s'.
+  Inv s -> Tr s -> 0 < ms < 4294967296 -> 0 <= ch < 255 -> (forall x, In x (slots s) -> s_chan x <> ch) -> NW s' ->
+  (s' = s /\ forall x, In x (slots s) -> s_chan x <> 255) \/
+  exists s3, s' = (if e then cd_cb c (if t_on (tcd s3) then t_due (tcd s3) else now s3) s3 else startstop s3) /\
+    Inv s3 /\ Tr s3 /\ frame s s3 /\ now s3 = now s /\ tcd s3 = tcd s /\ delay s3 = delay s /\
+    evo (fun k => k = ch) s s3 /\
+    (forall y, In y (slots s3) -> active y = true -> In y (slots s) \/ (g_tl y = now s /\ s_left y = ms /\ s_chan y = ch)) /\
+    (exists add, outs s3 = add ++ outs s /\ (forall o, In o add -> notfin o) /\ In (GArm (now s) ch ms target) add).
 Proof.
-  intros Es' [I T TT] Hms Hch NoCh N. unfold countdown in Es'.
+  intros Es' I T Hms Hch NoCh N. unfold countdown in Es'.
   rewrite (proj2 (find_slot_none_iff (slots s) 0 ch) NoCh) in Es'.
-  destruct (find_slot (slots s) 0 255) as [i|] eqn:EF.
-  2:{ subst s'. split; [constructor; auto|]. split; [apply frame_refl|]. split; [|apply evo_refl].
-      destruct consts_ok; unfold OP; lia. }
+  destruct (find_slot (slots s) 0 255) as [i|] eqn:EF; [|left; split; [auto|apply (find_slot_none _ _ _ EF)]]. right.
   apply find_slot_some in EF. destruct EF as (R & Ech & _). replace (i - 0) with i in * by lia.
   unfold len in R. rewrite (i_len _ I) in R. set (n := Z.to_nat i) in *.
   assert (Hn : (n < 8)%nat) by (unfold n; lia).
@@ -999,24 +1003,45 @@ Proof.
   { intros y Hy Ay'. subst s2. cbn [slots set_slots] in Hy. apply In_upd in Hy. destruct Hy as [->|Hy].
     - right. cbn. split; [lia|reflexivity].
     - left. exists y. rewrite Sl1 in Hy. repeat split; auto; lia. }
-  assert (I3 : Inv s3) by (eapply Inv_passive; eauto).
-  assert (T3 : Tr s3) by (eapply Tr_passive; eauto).
-  assert (E03 : evo (fun k => k = ch) s s3).
-  { apply (evo_trans _ s s2 s3); auto. - destruct FU, F12. lia. - apply evo_passive; auto. }
-  assert (Now3 : now s3 = now s).
-  { subst s3. rewrite now_t2_set. subst s2. cbn. auto. }
+  exists s3. split; [exact Es'|].
+  split; [eapply Inv_passive; eauto|]. split; [eapply Tr_passive; eauto|]. split; [auto|].
+  assert (Now3 : now s3 = now s) by (subst s3; rewrite now_t2_set; subst s2; cbn; auto).
+  split; [auto|]. split; [rewrite (pa_tcd _ _ P23); subst s2; cbn; apply P1|].
+  split; [rewrite (pa_delay _ _ P23); subst s2; cbn; apply P1|]. split.
+  - apply (evo_trans _ s s2 s3); auto. + destruct FU, F12. lia. + apply evo_passive; auto.
+  - split.
+    + intros y Hy Ay'. rewrite (pa_slots _ _ P23) in Hy. subst s2. cbn [slots set_slots] in Hy.
+      apply In_upd in Hy. destruct Hy as [->|Hy]; [right; cbn; auto|left; rewrite <- Sl1; auto].
+    + destruct (pa_outs _ _ P23) as (a3 & E3 & F3). exists (a3 ++ [GArm (now s) ch ms target]). split.
+      * rewrite E3. subst s2. cbn [outs set_slots emit set_outs]. rewrite O1, <- app_assoc. reflexivity.
+      * split; [|apply in_or_app; right; left; reflexivity].
+        intros o Ho. apply in_app_or in Ho. destruct Ho as [Ho|[<-|[]]]; [|exact Logic.I].
+        rewrite Forall_forall in F3. apply F3 in Ho. destruct o; cbn in *; auto.
+Qed.
+
+Lemma countdown_spec e c ms gpio ch target sender s s' :
+  s' = countdown e c ms gpio ch target sender s ->
+  Good s -> 0 < ms < 4294967296 -> 0 <= ch < 255 -> (forall x, In x (slots s) -> s_chan x <> ch) -> NW s' ->
+  Good s' /\ frame s s' /\ now s' <= now s + 8 * OP /\ evo (fun k => k = ch) s s'.
+Proof.
+  intros Es' [I T TT] Hms Hch NoCh N.
+  assert (OPpos : 0 <= OP) by (destruct consts_ok; unfold OP; lia).
+  destruct (countdown_arm e c ms gpio ch target sender s s' Es' I T Hms Hch NoCh N)
+    as [[-> _]|(s3 & E' & I3 & T3 & F03 & Now3 & _ & _ & E03 & _ & _)].
+  { split; [constructor; auto|]. split; [apply frame_refl|]. split; [lia|apply evo_refl]. }
   destruct e.
-  - destruct (cd_cb_spec c _ s3 s' Es' I3 T3 N) as (G' & F' & Nw & EV & _ & _).
+  - destruct (cd_cb_spec c _ s3 s' E' I3 T3 N) as (G' & F' & Nw & EV & _ & _).
     split; [auto|]. split; [eapply frame_trans; eauto|]. split; [lia|].
     apply (evo_trans _ s s3 s'); auto. + lia.
     + apply evald_evo; auto. apply (i_len _ (g_inv _ G')).
-  - pose proof (startstop_spec s3 (i_tmr _ I3)) as SS. cbv zeta in SS. rewrite <- Es' in SS.
+  - pose proof (startstop_spec s3 (i_tmr _ I3)) as SS. cbv zeta in SS. rewrite <- E' in SS.
     destruct SS as (E1 & E2 & E3 & E4 & E5 & E6 & E7 & E8 & E9 & E10 & TM & TT' & TD).
+    assert (F3' : frame s3 s') by (rewrite E'; apply frame_startstop).
     split; [constructor|].
     + eapply Inv_timer; eauto.
     + destruct T3. constructor; rewrite ?E1, ?E7, ?E4; auto.
     + auto.
-    + split; [eapply frame_trans; eauto|]. split; [rewrite E4; destruct consts_ok; unfold OP; lia|].
+    + split; [eapply frame_trans; eauto|]. split; [lia|].
       apply (evo_trans _ s s3 s'); auto. * lia. * apply evo_same_slots; auto.
 Qed.
 
@@ -1751,4 +1776,904 @@ Proof.
   intros HL. destruct consts_ok. destruct (Z_lt_ge_dec L (CD_MIN * CD_DIV)) as [Hs|Hb].
   - rewrite clampd_small by auto. nia.
   - pose proof (clampd_large L ltac:(lia)). pose proof (clampd_range L). nia.
+Qed.
+
+Lemma cd_cb_J e S c due s s' :
+  s' = cd_cb c due s -> Inv s -> Tr s -> NW s' -> Slack S (outs s') -> 0 <= S ->
+  (t_on (tcd s) = true -> t_due (tcd s) <= now s + t_per (tcd s)) ->
+  (e = true -> forall x, In x (slots s) -> active x = true ->
+       g_tl x = now s \/ due <= g_tl x + BQ + clampd (s_left x) * 1000) ->
+  (e = true -> forall tcb ch tg t0 dur u0 u, In (GFinish tcb ch tg t0 dur u0 u) (outs s) -> tcb < t0 + dur * 1000 + OTB S) ->
+  J e S s' /\ finsrc s s'.
+Proof.
+  intros Es' I T N SL HS Due HQ OT.
+  destruct (cd_cb_spec c due s s' Es' I T N) as (G' & F' & Nw & EV & (add & O1 & O2 & O3) & TD).
+  assert (BQpos : 0 <= BQ) by (destruct consts_ok; unfold BQ, OP; lia).
+  fold BQ in Nw. pose proof (fr_now _ _ F') as Hn.
+  assert (Fin : forall tcb ch tg t0 dur u0 u, In (GFinish tcb ch tg t0 dur u0 u) add ->
+            exists i, (i < 8)%nat /\ active (slot_at s i) = true /\ now s <= tcb <= now s' /\
+                      ch = s_chan (slot_at s i) /\ t0 = g_t0 (slot_at s i) /\ dur = g_dur (slot_at s i)).
+  { intros tcb ch tg t0 dur u0 u H. rewrite Forall_forall in O2.
+    destruct (O2 _ H eq_refl) as [E|[(t & E & _)|(i & tl & P1 & P2 & P3 & P4 & _)]]; try discriminate.
+    unfold finish_of in P3. injection P3 as -> -> -> -> -> -> ->. exists i. repeat split; auto; lia. }
+  split; [constructor|].
+  - destruct TD as [[Et Ed]|[Ea|Eoff]]; intros On.
+    + rewrite Et in *. specialize (Due On). lia.
+    + lia.
+    + congruence.
+  - intros He y Hy Ay. destruct (in_slot_at s' y Hy) as (i & Hi & <-). rewrite (i_len _ (g_inv _ G')) in Hi.
+    destruct (g_t1 _ G' _ Hy Ay) as (On & _).
+    destruct (EV i Hi) as [[A B]|(A & tl & R & [[D1 D2]|[D1 D2]])].
+    + rewrite B in Ay. congruence.
+    + rewrite D2. cbn [g_tl slot_run].
+      destruct TD as [[Et Ed]|[Ea|Eoff]].
+      * rewrite Et in *. specialize (Due On). lia.
+      * lia.
+      * congruence.
+    + rewrite D2 in Ay. discriminate.
+  - intros He tcb ch tg t0 dur u0 u H. rewrite O1 in H. apply in_app_or in H. destruct H as [H|H]; [|eapply OT; eauto].
+    destruct (Fin _ _ _ _ _ _ _ H) as (i & Hi & Ai & Rt & -> & -> & ->).
+    set (x := slot_at s i) in *.
+    assert (Hx : In x (slots s)) by (apply slot_at_in; rewrite (i_len _ I); auto).
+    destruct (i_ok _ I x Hx Ai) as [Sch Sleft Sdur Sacct Slast Su0 (T1' & T2' & T3')].
+    assert (Gap : g_tl x - g_t0 x < (g_dur x - s_left x + 1) * 1000).
+    { apply rd_diff_hi with (s := s). rewrite <- Slast, <- Su0. lia. }
+    assert (Hst : now s <= due + S).
+    { apply SL. rewrite O1. apply in_or_app. left. exact O3. }
+    pose proof (period_arith (g_dur x) (s_left x) ltac:(lia)) as PA.
+    pose proof (clampd_range (s_left x)) as CR. destruct consts_ok.
+    unfold OTB. destruct (HQ He x Hx Ai) as [Eq|Hq]; nia.
+  - exists add. split; auto. intros tcb ch tg t0 dur u0 u H.
+    destruct (Fin _ _ _ _ _ _ _ H) as (i & Hi & Ai & Rt & -> & -> & ->).
+    left. exists (slot_at s i). repeat split; auto. apply slot_at_in. rewrite (i_len _ I). auto.
+Qed.
+
+Lemma finsrc_notfin s s' add : outs s' = add ++ outs s -> (forall o, In o add -> notfin o) -> finsrc s s'.
+Proof. intros E F. exists add. split; auto. intros tcb ch tg t0 dur u0 u H. apply F in H. contradiction. Qed.
+
+Lemma countdown_J e S c ms gpio ch target sender s s' :
+  s' = countdown e c ms gpio ch target sender s ->
+  Good s -> J e S s -> 0 < ms < 4294967296 -> 0 <= ch < 255 -> (forall x, In x (slots s) -> s_chan x <> ch) ->
+  NW s' -> Slack S (outs s') -> 0 <= S ->
+  J e S s' /\ finsrc s s'.
+Proof.
+  intros Es' [I T TT] [Jd Jq Jo] Hms Hch NoCh N SL HS.
+  destruct (countdown_arm e c ms gpio ch target sender s s' Es' I T Hms Hch NoCh N)
+    as [[-> _]|(s3 & E' & I3 & T3 & F03 & Now3 & Tc3 & Dl3 & E03 & Sl3 & (add & O3 & NF3 & _))].
+  { split; [constructor; auto|apply finsrc_refl]. }
+  assert (FS03 : finsrc s s3) by (eapply finsrc_notfin; eauto).
+  assert (OT3 : e = true -> forall tcb ch0 tg t0 dur u0 u, In (GFinish tcb ch0 tg t0 dur u0 u) (outs s3) -> tcb < t0 + dur * 1000 + OTB S).
+  { intros He tcb ch0 tg t0 dur u0 u H. rewrite O3 in H. apply in_app_or in H. destruct H as [H|H]; [apply NF3 in H; contradiction|].
+    eapply Jo; eauto. }
+  assert (BQpos : 0 <= BQ) by (destruct consts_ok; unfold BQ, OP; lia).
+  destruct e.
+  - destruct (cd_cb_J true S c _ s3 s' E' I3 T3 N SL HS) as (J' & FS); auto.
+    + rewrite Tc3, Now3. exact Jd.
+    + intros _ x Hx Ax. destruct (Sl3 x Hx Ax) as [Hin|(A & _)]; [|left; lia]. right.
+      destruct (TT x Hin Ax) as (On & (_ & Hc) & Hp). rewrite Tc3, On.
+      specialize (Jq eq_refl x Hin Ax). nia.
+    + split; auto. apply (finsrc_trans (fun k => k = ch) s s3 s'); auto. lia.
+  - pose proof (startstop_spec s3 (i_tmr _ I3)) as SS. cbv zeta in SS. rewrite <- E' in SS.
+    destruct SS as (E1 & E2 & E3 & E4 & E5 & E6 & E7 & E8 & E9 & E10 & TM & TT' & TD).
+    split; [constructor; try (intros; discriminate)|].
+    + intros On. destruct TD as [[Et Ed]|[Ea|Eoff]].
+      * rewrite Et in *. rewrite Tc3 in *. specialize (Jd On). lia.
+      * lia.
+      * congruence.
+    + apply (finsrc_trans (fun k => k = ch) s s3 s'); auto; [lia|]. exists []. split; auto. intros tcb ch0 tg t0 dur u0 u H. contradiction.
+Qed.
+
+Lemma JF_passive e S s s' : passive s s' -> Good s -> J e S s -> J e S s' /\ finsrc s s'.
+Proof. intros P G Jj. split; [eapply J_passive; eauto|apply finsrc_passive; auto]. Qed.
+
+Lemma disarm_J e S c ch s :
+  0 <= ch < 255 -> Good s -> J e S s -> J e S (disarm c ch s) /\ finsrc s (disarm c ch s).
+Proof.
+  intros Hch G Jj. destruct (disarm_spec c ch s Hch G) as (G' & F & D & C & Nn & _ & E & (add & O & NG)).
+  split; [|eapply finsrc_noghost; eauto].
+  apply (J_keep e S (fun _ => False) s _); auto; try lia; try apply G'. exists add; auto.
+Qed.
+
+Lemma JF_trans e S P s s1 s2 :
+  now s <= now s1 -> evo P s s1 -> J e S s1 /\ finsrc s s1 -> (J e S s1 -> J e S s2 /\ finsrc s1 s2) -> J e S s2 /\ finsrc s s2.
+Proof.
+  intros Hn E [J1 F1] H. destruct (H J1) as [J2 F2]. split; auto. eapply finsrc_trans; eauto.
+Qed.
+
+Lemma sdt_J e S c ch newv dur sender s s' :
+  s' = set_duration_timer e c ch newv dur sender s ->
+  wf_cfg c -> Good s -> J e S s -> 0 <= ch < 8 -> dur < 4294967296 -> NW s' -> Slack S (outs s') -> 0 <= S ->
+  J e S s' /\ finsrc s s'.
+Proof.
+  intros Es' W G Jj Hch Hdur N SL HS. unfold set_duration_timer in Es'.
+  set (stair := (ch <? ST_T2_COUNT) && (ch <? T2_COUNT) && (0 <? getz (time2 s) ch)) in *.
+  remember (if stair && (newv =? 0) then set_ram_t2 (setz (ram_t2 s) ch 0) s else s) as s0 eqn:Es0.
+  set (dur1 := if stair then _ else dur) in *.
+  assert (P0 : passive s s0) by (subst s0; destruct (stair && (newv =? 0)); [apply passive_set_ram_t2|apply passive_refl]).
+  assert (Hd1 : dur1 < 4294967296).
+  { unfold dur1. destruct stair; auto. destruct (newv =? 0); [lia|]. destruct (_ || _); auto.
+    pose proof (s32_range (getz (time2 s) ch)). lia. }
+  rewrite u8_small in Es' by lia.
+  pose proof (Good_passive _ _ P0 G) as G0.
+  destruct (JF_passive e S _ _ P0 G Jj) as [J0 FS0].
+  destruct (disarm_spec c ch s0 ltac:(lia) G0) as (G1 & F1 & D1 & C1 & N1 & NoCh & E1 & _).
+  destruct (disarm_J e S c ch s0 ltac:(lia) G0 J0) as [J1 FS1].
+  remember (disarm c ch s0) as s1 eqn:Es1. clear Es1.
+  assert (FS01 : finsrc s s1) by (apply (finsrc_trans (fun _ => False) s s0 s1); auto; [apply P0|apply evo_passive; auto]).
+  assert (E01 : evo (fun k => k = ch) s s1).
+  { apply (evo_trans _ s s0 s1); [apply P0|apply evo_passive; auto|]. eapply evo_weaken; [|exact E1]. intros; contradiction. }
+  assert (Hn01 : now s <= now s1) by (destruct P0; lia).
+  destruct (0 <? dur1) eqn:Ed; [|subst s'; auto].
+  apply Z.ltb_lt in Ed.
+  destruct (find_chan (c_relays c) 0 ch) as [[a r]|] eqn:EFC; [|subst s'; auto].
+  set (f := getz (chfl s1) a) in *.
+  remember (if (newv =? 1) || hasf f CHFLAG_COUNTDOWN
+            then countdown e c (u32 dur1) (r_gpio r) ch (if newv =? 0 then 1 else 0) sender s1 else s1) as s2 eqn:Es2.
+  assert (P23 : passive s2 s') by (subst s'; destruct (hasf f _); [apply passive_ext_changed|apply passive_refl]).
+  assert (N2 : NW s2) by (eapply NW_passive; eauto).
+  assert (SL2 : Slack S (outs s2)) by (eapply Slack_frame; [apply frame_passive; exact P23|auto]).
+  assert (H2 : Good s2 /\ now s1 <= now s2 /\ evo (fun k => k = ch) s1 s2 /\ J e S s2 /\ finsrc s1 s2).
+  { destruct ((newv =? 1) || hasf f CHFLAG_COUNTDOWN).
+    - rewrite u32_small in Es2 by lia.
+      destruct (countdown_spec e c dur1 (r_gpio r) ch _ sender s1 s2 Es2 G1 ltac:(lia) ltac:(lia) NoCh N2) as (G2 & F2 & _ & E2).
+      destruct (countdown_J e S c dur1 (r_gpio r) ch _ sender s1 s2 Es2 G1 J1 ltac:(lia) ltac:(lia) NoCh N2 SL2 HS) as (J2 & FS2).
+      split; [auto|]. split; [apply F2|]. auto.
+    - subst s2. split; [auto|]. split; [lia|]. split; [apply evo_refl|]. split; [auto|apply finsrc_refl]. }
+  destruct H2 as (G2 & Hn12 & E12 & J2 & FS12).
+  destruct (JF_passive e S _ _ P23 G2 J2) as [J' FS2'].
+  split; auto.
+  apply (finsrc_trans (fun k => k = ch) s s1 s'); auto.
+  apply (finsrc_trans (fun k => k = ch) s1 s2 s'); auto.
+Qed.
+
+Lemma csv_J e S c ch v dur sender s s' :
+  s' = channel_set_value e c ch v dur sender s ->
+  wf_cfg c -> Good s -> J e S s -> NW s' -> Slack S (outs s') -> 0 <= S ->
+  J e S s' /\ finsrc s s'.
+Proof.
+  intros Es' W G Jj N SL HS. unfold channel_set_value in Es'.
+  destruct (find_chan (c_relays c) 0 ch) as [[a r]|] eqn:EFC.
+  2:{ assert (P : passive s s') by (subst s'; apply passive_set_result). apply JF_passive; auto. }
+  destruct (find_chan_some _ _ _ _ _ EFC) as [Hr Er]. pose proof (wf_chan _ W r Hr) as Hc. rewrite Er in *.
+  remember (set_duration_timer e c ch v (s32 dur) sender s) as s1 eqn:Es1.
+  pose proof (passive_chan_set_value c (r_gpio r) v ch s1) as P12.
+  destruct (chan_set_value c (r_gpio r) v ch s1) as [s2 ok]. cbn [fst] in *.
+  assert (P2' : passive s2 s') by (subst s'; apply passive_set_result).
+  pose proof (passive_trans _ _ _ P12 P2') as P1'.
+  assert (N1 : NW s1) by (eapply NW_passive; eauto).
+  assert (SL1 : Slack S (outs s1)) by (eapply Slack_frame; [apply frame_passive; exact P1'|auto]).
+  pose proof (s32_range dur).
+  destruct (set_duration_timer_spec e c ch v (s32 dur) sender s s1 Es1 W G Hc ltac:(lia) N1) as (G1 & F1 & _ & E1 & _).
+  destruct (sdt_J e S c ch v (s32 dur) sender s s1 Es1 W G Jj Hc ltac:(lia) N1 SL1 HS) as (J1 & FS1).
+  destruct (JF_passive e S _ _ P1' G1 J1) as [J' FS'].
+  split; auto. apply (finsrc_trans (fun k => k = ch) s s1 s'); auto. apply F1.
+Qed.
+
+Lemma rsw_J e S c port hi s s' :
+  s' = relay_switch e c port hi s ->
+  wf_cfg c -> Good s -> J e S s -> NW s' -> Slack S (outs s') -> 0 <= S ->
+  J e S s' /\ finsrc s s'.
+Proof.
+  intros Es' W G Jj N SL HS. unfold relay_switch in Es'. set (ch := last_chan (c_relays c) port (-1)) in *.
+  destruct (ch <? 0) eqn:Ec; [subst s'; split; [auto|apply finsrc_refl]|].
+  apply Z.ltb_ge in Ec.
+  destruct (last_chan_spec (c_relays c) port (-1) (or_intror Logic.I)) as [E|(r & Hr & Er & _)]; [fold ch in E; lia|].
+  fold ch in Er. pose proof (wf_chan _ W r Hr) as Hc. rewrite Er in Hc.
+  destruct consts_ok. destruct cf_t3 as [CT1 CT2].
+  set (hi1 := if _ && _ && _ && _ then HI else hi) in *.
+  set (hi2 := if hi1 =? 255 then _ else hi1) in *.
+  assert (Lt : (ch <? ST_T2_COUNT) = true) by (apply Z.ltb_lt; lia). rewrite Lt in Es'.
+  remember (set_ram_t2 (setz (ram_t2 s) ch 0) s) as s0 eqn:Es0.
+  assert (P0 : passive s s0) by (subst s0; apply passive_set_ram_t2).
+  remember (set_duration_timer e c ch hi2 0 0 s0) as s1 eqn:Es1.
+  remember (relay_hi c port hi2 s1) as s2 eqn:Es2.
+  assert (P12 : passive s1 s2) by (subst s2; apply passive_relay_hi).
+  assert (P2' : passive s2 s') by (subst s'; apply passive_value_changed).
+  pose proof (passive_trans _ _ _ P12 P2') as P1'.
+  assert (N1 : NW s1) by (eapply NW_passive; eauto).
+  assert (SL1 : Slack S (outs s1)) by (eapply Slack_frame; [apply frame_passive; exact P1'|auto]).
+  pose proof (Good_passive _ _ P0 G) as G0.
+  destruct (JF_passive e S _ _ P0 G Jj) as [J0 FS0].
+  destruct (set_duration_timer_spec e c ch hi2 0 0 s0 s1 Es1 W G0 Hc ltac:(lia) N1) as (G1 & F1 & _ & E1 & _).
+  destruct (sdt_J e S c ch hi2 0 0 s0 s1 Es1 W G0 J0 Hc ltac:(lia) N1 SL1 HS) as (J1 & FS1).
+  destruct (JF_passive e S _ _ P1' G1 J1) as [J' FS'].
+  split; auto.
+  apply (finsrc_trans (fun _ => False) s s0 s'); auto; [apply P0|apply evo_passive; auto|].
+  apply (finsrc_trans (fun k => k = ch) s0 s1 s'); auto. apply F1.
+Qed.
+
+Lemma late_nonneg c i : wf_cfg c -> 0 <= getz (c_late c) i.
+Proof.
+  intros W. unfold getz. destruct (i <? 0); [lia|].
+  destruct (nth_in_or_default (Z.to_nat i) (c_late c) 0) as [H|H]; [apply (wf_late _ W); auto|rewrite H; lia].
+Qed.
+
+Lemma fire_J e S c i s s' :
+  s' = fire e c i s -> wf_cfg c -> Good s -> J e S s -> t_on (get_t i s) = true -> NW s' -> Slack S (outs s') -> 0 <= S ->
+  J e S s' /\ finsrc s s'.
+Proof.
+  intros Es' W G Jj Hon N SL HS. unfold fire in Es'.
+  set (t := get_t i s) in *. set (n := len (c_late c)) in *.
+  set (late := if 0 <? n then getz (c_late c) (li s mod n) else 0) in *.
+  assert (Hlate : 0 <= late) by (unfold late; destruct (0 <? n); [apply late_nonneg; auto|lia]).
+  remember (if 0 <? n then set_li (li s + 1) s else s) as s1 eqn:Es1.
+  remember (if now s1 <? t_due t + late then set_now (t_due t + late) s1 else s1) as s2 eqn:Es2.
+  remember (if negb (t_per t =? 0)
+            then set_t i {| t_on := true; t_due := t_due t + t_per t; t_seq := seqc s2 + 1; t_per := t_per t |} (set_seqc (seqc s2 + 1) s2)
+            else set_t i {| t_on := false; t_due := t_due t; t_seq := t_seq t; t_per := 0 |} s2) as s3 eqn:Es3.
+  assert (A1 : slots s1 = slots s /\ delay s1 = delay s /\ cnt0 s1 = cnt0 s /\ tb s1 = tb s /\ upc s1 = upc s /\ upl s1 = upl s /\
+               outs s1 = outs s /\ now s1 = now s /\ tcd s1 = tcd s /\ tsv s1 = tsv s /\ tup s1 = tup s)
+    by (subst s1; destruct (0 <? n); repeat split; reflexivity).
+  destruct A1 as (a1 & a2 & a3 & a4 & a5 & a6 & a7 & a8 & a9 & a10 & a11).
+  assert (A2 : slots s2 = slots s /\ delay s2 = delay s /\ cnt0 s2 = cnt0 s /\ tb s2 = tb s /\ upc s2 = upc s /\ upl s2 = upl s /\
+               outs s2 = outs s /\ now s <= now s2 /\ t_due t + late <= now s2 /\ tcd s2 = tcd s /\ tsv s2 = tsv s /\ tup s2 = tup s).
+  { subst s2. destruct (now s1 <? t_due t + late) eqn:E; [apply Z.ltb_lt in E|apply Z.ltb_ge in E]; cbn;
+      rewrite ?a1, ?a2, ?a3, ?a4, ?a5, ?a6, ?a7, ?a8, ?a9, ?a10, ?a11; repeat split; auto; try lia. }
+  destruct A2 as (b1 & b2 & b3 & b4 & b5 & b6 & b7 & b8 & b8' & b9 & b10 & b11).
+  assert (TM : TmrOK s) by apply G. destruct TM as (D0 & Dz & Dp).
+  assert (A3 : slots s3 = slots s /\ delay s3 = delay s /\ cnt0 s3 = cnt0 s /\ tb s3 = tb s /\ upc s3 = upc s /\ upl s3 = upl s /\
+               outs s3 = outs s /\ now s3 = now s2 /\
+               (t_on (tcd s3) = t_on (tcd s) /\ t_per (tcd s3) = t_per (tcd s)) /\
+               (match i with TCD => t_due (tcd s3) = t_due (tcd s) + t_per (tcd s) | _ => tcd s3 = tcd s end)).
+  { subst s3. destruct i; cbn [set_t]; unfold t, get_t in *.
+    - assert (0 < delay s) by (destruct (Z.eq_dec (delay s) 0) as [Z0|]; [rewrite (Dz Z0) in Hon; discriminate|lia]).
+      destruct (Dp H) as [_ Pp]. assert (t_per (tcd s) <> 0) by lia.
+      destruct (t_per (tcd s) =? 0) eqn:E0; [apply Z.eqb_eq in E0; lia|]. cbn.
+      rewrite b1, b2, b3, b4, b5, b6, b7. repeat split; auto.
+    - destruct (negb _); cbn; rewrite b1, b2, b3, b4, b5, b6, b7, b9; repeat split; auto.
+    - destruct (negb _); cbn; rewrite b1, b2, b3, b4, b5, b6, b7, b9; repeat split; auto. }
+  destruct A3 as (c1 & c2 & c3 & c4 & c5 & c6 & c7 & c8 & c9 & c10).
+  assert (G3 : Good s3) by (eapply Good_tick; eauto; lia).
+  destruct Jj as [Jd Jq Jo].
+  unfold run_cb in Es'. destruct i.
+  - (* countdown timer: an evaluation whose start is late by what Slack allows *)
+    destruct G3 as [I3 T3 _]. unfold t, get_t in *.
+    destruct (cd_cb_J e S c _ s3 s' Es' I3 T3 N SL HS) as (J' & FS).
+    + intros _. rewrite c10. destruct c9 as [_ ->]. lia.
+    + intros He x Hx Ax. right. rewrite c1 in Hx.
+      destruct (g_t1 _ G x Hx Ax) as (On & (_ & Hc) & Hp). specialize (Jq He x Hx Ax). nia.
+    + intros He. rewrite c7. apply Jo; auto.
+    + split; auto. destruct FS as (add & O & Sr). exists add. rewrite c7 in O. split; auto.
+      intros tcb ch tg t0 dur u0 u H. destruct (Sr _ _ _ _ _ _ _ H) as [(x & Hx & R)|Hl].
+      * left. exists x. rewrite c1 in Hx. auto.
+      * right. lia.
+  - assert (J3 : J e S s3).
+    { constructor; rewrite ?c10, ?c1, ?c7; auto. intros On. specialize (Jd On). lia. }
+    assert (P : passive s3 s') by (subst s'; apply passive_do_save).
+    destruct (JF_passive e S _ _ P G3 J3) as [J' (add & O & Sr)]. split; auto.
+    exists add. rewrite c7 in O. split; auto. intros tcb ch tg t0 dur u0 u H.
+    destruct (Sr _ _ _ _ _ _ _ H) as [(x & Hx & R)|Hl]; [left; exists x; rewrite c1 in Hx; auto|right; lia].
+  - assert (J3 : J e S s3).
+    { constructor; rewrite ?c10, ?c1, ?c7; auto. intros On. specialize (Jd On). lia. }
+    assert (F' : frame s3 s').
+    { subst s'. unfold uptime_usec. cbn [fst]. constructor; cbn; try reflexivity; try lia. exists []; auto. }
+    assert (N3 : NW s3) by (eapply NW_frame; eauto).
+    assert (P : passive s3 s').
+    { pose proof (uptime_usec_spec s3 (i_clk _ (g_inv _ G3)) N3) as U. rewrite U in Es'. cbn [fst] in Es'. subst s'.
+      destruct (i_clk _ (g_inv _ G3)) as (A & B & C & D). unfold NW in N3.
+      constructor; cbn; try reflexivity; try lia. - intros _. unfold ClockOK; cbn. lia. - exists []; auto. }
+    destruct (JF_passive e S _ _ P G3 J3) as [J' (add & O & Sr)]. split; auto.
+    exists add. rewrite c7 in O. split; auto. intros tcb ch tg t0 dur u0 u H.
+    destruct (Sr _ _ _ _ _ _ _ H) as [(x & Hx & R)|Hl]; [left; exists x; rewrite c1 in Hx; auto|right; lia].
+Qed.
+
+Lemma adv_J e S c fuel : forall end_ s s',
+  s' = adv e c fuel end_ s -> wf_cfg c -> Good s -> J e S s -> NW s' -> Slack S (outs s') -> 0 <= S ->
+  J e S s' /\ finsrc s s'.
+Proof.
+  induction fuel as [|k IH]; intros end_ s s' Es' W G Jj N SL HS; cbn [adv] in Es'.
+  - assert (P : passive s s') by (subst s'; apply passive_emit; exact Logic.I). apply JF_passive; auto.
+  - destruct (pick s end_) as [i|] eqn:EP; [|subst s'; split; [auto|apply finsrc_refl]].
+    apply pick_some in EP. unfold due_ok in EP. apply andb_true_iff in EP. destruct EP as [Hon _].
+    remember (fire e c i s) as s1 eqn:Es1.
+    assert (F1' : frame s1 s') by (subst s'; apply adv_frame).
+    assert (N1 : NW s1) by (eapply NW_frame; eauto).
+    assert (SL1 : Slack S (outs s1)) by (eapply Slack_frame; eauto).
+    destruct (fire_spec e c i s s1 Es1 W G Hon N1) as (G1 & F1 & E1).
+    destruct (fire_J e S c i s s1 Es1 W G Jj Hon N1 SL1 HS) as (J1 & FS1).
+    destruct (IH end_ s1 s' Es' W G1 J1 N SL HS) as (J' & FS').
+    split; auto. eapply finsrc_trans; eauto. apply F1.
+Qed.
+Lemma advance_J e S c dt s s' :
+  s' = advance e c dt s -> wf_cfg c -> Good s -> J e S s -> NW s' -> Slack S (outs s') -> 0 <= S ->
+  J e S s' /\ finsrc s s'.
+Proof.
+  intros Es' W G Jj N SL HS. unfold advance in Es'.
+  remember (adv e c (Z.to_nat (dt / 20000 + 64)) (now s + dt) s) as s1 eqn:Es1.
+  assert (F1 : frame s s1) by (subst s1; apply adv_frame).
+  destruct (now s1 <? now s + dt) eqn:E; [apply Z.ltb_lt in E|apply Z.ltb_ge in E].
+  - assert (N1 : NW s1). { subst s'. unfold NW in *. cbn in N. lia. }
+    assert (SL1 : Slack S (outs s1)) by (subst s'; exact SL).
+    destruct (adv_spec e c _ _ s s1 Es1 W G N1) as (G1 & E1).
+    destruct (adv_J e S c _ _ s s1 Es1 W G Jj N1 SL1 HS) as ([Jd Jq Jo] & (add & O & Sr)).
+    subst s'. split; [constructor; cbn; auto|exists add; auto].
+    intros On. specialize (Jd On). lia.
+  - subst s'. eapply adv_J; eauto.
+Qed.
+
+Lemma restore_relay_J e S c s s' a r :
+  s' = restore_relay e c s (a, r) -> wf_cfg c -> In r (c_relays c) -> Good s -> J e S s -> NW s' -> Slack S (outs s') -> 0 <= S ->
+  J e S s' /\ finsrc s s'.
+Proof.
+  intros Es' W Hr G Jj N SL HS. unfold restore_relay in Es'. pose proof (wf_chan _ W r Hr) as Hc.
+  destruct (_ || _).
+  - destruct consts_ok. destruct cf_t3 as [CT1 CT2].
+    assert (Lt : (0 <=? r_chan r) && (r_chan r <? ST_T2_COUNT) = true) by (apply andb_true_iff; split; [apply Z.leb_le|apply Z.ltb_lt]; lia).
+    rewrite Lt in Es'.
+    remember (set_duration_timer e c (r_chan r) (s8 (getz (ram_relay s) a)) (s32 (getz (ram_t2 s) (r_chan r))) 0 s) as s1 eqn:Es1.
+    assert (P : passive s1 s') by (subst s'; apply passive_relay_hi).
+    assert (N1 : NW s1) by (eapply NW_passive; eauto).
+    assert (SL1 : Slack S (outs s1)) by (eapply Slack_frame; [apply frame_passive; exact P|auto]).
+    pose proof (s32_range (getz (ram_t2 s) (r_chan r))).
+    destruct (set_duration_timer_spec e c _ _ _ _ s s1 Es1 W G Hc ltac:(lia) N1) as (G1 & F1 & _ & E1 & _).
+    destruct (sdt_J e S c _ _ _ _ s s1 Es1 W G Jj Hc ltac:(lia) N1 SL1 HS) as (J1 & FS1).
+    destruct (JF_passive e S _ _ P G1 J1) as [J' FS']. split; auto. eapply finsrc_trans; eauto. apply F1.
+  - destruct (hasf _ _).
+    + assert (P : passive s s') by (subst s'; apply passive_relay_hi). apply JF_passive; auto.
+    + subst s'. split; [auto|apply finsrc_refl].
+Qed.
+Lemma fold_restore_J e S c : forall l s s',
+  s' = fold_left (restore_relay e c) l s -> wf_cfg c -> (forall ar, In ar l -> In (snd ar) (c_relays c)) -> Good s -> J e S s ->
+  NW s' -> Slack S (outs s') -> 0 <= S -> J e S s' /\ finsrc s s'.
+Proof.
+  induction l as [|[a r] l IH]; intros s s' Es' W Hl G Jj N SL HS; cbn [fold_left] in Es'.
+  - subst s'. split; [auto|apply finsrc_refl].
+  - remember (restore_relay e c s (a, r)) as s1 eqn:Es1.
+    assert (F1' : frame s1 s') by (subst s'; apply fold_restore_frame).
+    assert (N1 : NW s1) by (eapply NW_frame; eauto).
+    assert (SL1 : Slack S (outs s1)) by (eapply Slack_frame; eauto).
+    destruct (restore_relay_spec e c s s1 a r Es1 W (Hl (a, r) (or_introl eq_refl)) G N1) as (G1 & E1).
+    destruct (restore_relay_J e S c s s1 a r Es1 W (Hl (a, r) (or_introl eq_refl)) G Jj N1 SL1 HS) as (J1 & FS1).
+    destruct (IH s1 s' Es' W (fun ar H => Hl ar (or_intror H)) G1 J1 N SL HS) as (J' & FS').
+    split; auto. eapply finsrc_trans; eauto. subst s1. apply restore_relay_frame.
+Qed.
+
+(* the part of J that survives a restart: the bound on the switch-backs already in the trace *)
+Definition OTO (e : bool) (S : Z) (l : list out) : Prop :=
+  e = true -> forall tcb ch tg t0 dur u0 u, In (GFinish tcb ch tg t0 dur u0 u) l -> tcb < t0 + dur * 1000 + OTB S.
+
+Lemma boot_J e S c s s' :
+  s' = boot e c s -> wf_cfg c -> TrO s -> 0 <= cnt0 s -> tb s <= now s -> OTO e S (outs s) -> NW s' -> Slack S (outs s') -> 0 <= S ->
+  J e S s' /\ (exists add, outs s' = add ++ outs s /\ forall tcb ch tg t0 dur u0 u, In (GFinish tcb ch tg t0 dur u0 u) add -> now s <= t0).
+Proof.
+  intros Es' W TO C0 Ct OT N SL HS. unfold boot in Es'.
+  remember (t_arm TUP UPTIME_POLL_MS true (set_upc 0 (set_upl 0 (set_seqc 0 (set_li 0 (set_tcd tmr0 (set_tsv tmr0 (set_tup tmr0 s)))))))) as s1 eqn:Es1.
+  remember (set_ram_relay (fl_relay s1) (set_ram_t2 (fl_t2 s1) s1)) as s2 eqn:Es2.
+  remember (set_slots (repeat slot_free 8) (set_delay 0 s2)) as s3 eqn:Es3.
+  remember (set_chfl (if c_lateflags c then map (fun _ => 0) (c_relays c) else map r_chfl (c_relays c)) s3) as s4 eqn:Es4.
+  remember (set_queue [] (set_conn false (set_reg false (set_gout 0 s4)))) as s5 eqn:Es5.
+  remember (fold_left (restore_relay e c) (enum 0 (c_relays c)) s5) as s6 eqn:Es6.
+  assert (A5 : slots s5 = repeat slot_free 8 /\ delay s5 = 0 /\ tcd s5 = tmr0 /\ cnt0 s5 = cnt0 s /\ tb s5 = tb s /\ now s5 = now s /\
+               upc s5 = 0 /\ upl s5 = 0 /\ outs s5 = outs s).
+  { subst s5 s4 s3 s2 s1. cbn. repeat split; reflexivity. }
+  destruct A5 as (a1 & a2 & a3 & a4 & a5 & a6 & a7 & a8 & a9).
+  assert (G5 : Good s5).
+  { constructor; [constructor|constructor|]; unfold ClockOK, TmrOK, slot_at; rewrite ?a1, ?a2, ?a3, ?a4, ?a5, ?a6, ?a7, ?a8, ?a9.
+    - apply repeat_length.
+    - lia.
+    - intros x Hx. left. apply (free_inactive x Hx).
+    - intros x Hx Ax. destruct (free_inactive x Hx). congruence.
+    - intros i j Hi Hj _ Ne. exfalso. apply Ne. apply (free_inactive (nth i (repeat slot_free 8) slot_free)). apply nth_In. rewrite repeat_length. auto.
+    - cbn. repeat split; auto; lia.
+    - intros * H. destruct (to_fin _ TO _ _ _ _ _ _ _ H) as (A & B & C & D). repeat split; auto.
+      intros x Hx Ax. destruct (free_inactive x Hx). congruence.
+    - intros x Hx Ax. destruct (free_inactive x Hx). congruence.
+    - apply TO.
+    - intros x Hx Ax. rewrite a1 in Hx. destruct (free_inactive x Hx). congruence. }
+  assert (J5 : J e S s5).
+  { constructor; rewrite ?a1, ?a3, ?a9.
+    - cbn. intros; discriminate.
+    - intros _ x Hx Ax. destruct (free_inactive x Hx). congruence.
+    - exact OT. }
+  remember (fst (uptime_usec s6)) as s7 eqn:Es7.
+  assert (F67 : frame s6 s7) by (subst s7; unfold uptime_usec; cbn [fst]; constructor; cbn; try reflexivity; try lia; exists []; auto).
+  assert (F7' : frame s7 s') by (subst s'; constructor; cbn; try reflexivity; try lia; exists []; auto).
+  pose proof (frame_trans _ _ _ F67 F7') as F6'.
+  assert (N6 : NW s6) by (eapply NW_frame; eauto).
+  assert (SL6 : Slack S (outs s6)) by (eapply Slack_frame; eauto).
+  destruct (fold_restore_spec e c _ s5 s6 Es6 W (enum_snd _ 0) G5 N6) as (G6 & E6).
+  destruct (fold_restore_J e S c _ s5 s6 Es6 W (enum_snd _ 0) G5 J5 N6 SL6 HS) as (J6 & (add & O6 & Sr6)).
+  assert (P67 : passive s6 s7).
+  { pose proof (uptime_usec_spec s6 (i_clk _ (g_inv _ G6)) N6) as U. rewrite U in Es7. cbn [fst] in Es7. subst s7.
+    destruct (i_clk _ (g_inv _ G6)) as (A & B & C & D). unfold NW in N6.
+    constructor; cbn; try reflexivity; try lia. - intros _. unfold ClockOK; cbn. lia. - exists []; auto. }
+  destruct (JF_passive e S _ _ P67 G6 J6) as [[Jd Jq Jo] (add7 & O7 & Sr7)].
+  split.
+  - subst s'. constructor; cbn; auto.
+  - exists (add7 ++ add). split.
+    + subst s'. cbn [outs set_seqc]. rewrite O7, O6, a9, app_assoc. reflexivity.
+    + intros tcb ch tg t0 dur u0 u H. apply in_app_or in H. destruct H as [H|H].
+      * destruct (Sr7 _ _ _ _ _ _ _ H) as [(x & Hx & Ax & Ec & Et)|Hl].
+        -- destruct (E6 x Hx Ax) as [(x0 & Hx0 & Ax0 & _)|[A _]]; [|lia].
+           rewrite a1 in Hx0. destruct (free_inactive x0 Hx0). congruence.
+        -- destruct (fold_restore_frame e c (enum 0 (c_relays c)) s5). rewrite <- Es6 in *. lia.
+      * destruct (Sr6 _ _ _ _ _ _ _ H) as [(x & Hx & Ax & _)|Hl]; [|lia].
+        rewrite a1 in Hx. destruct (free_inactive x Hx). congruence.
+Qed.
+
+Lemma boot_outs e c s : exists add, outs (boot e c s) = add ++ outs s.
+Proof.
+  unfold boot.
+  set (s5 := set_queue [] _).
+  set (s6 := fold_left (restore_relay e c) (enum 0 (c_relays c)) s5).
+  destruct (fold_restore_frame e c (enum 0 (c_relays c)) s5) as [_ _ _ (a & E)]. fold s6 in E.
+  exists a. unfold uptime_usec. cbn [fst outs set_seqc set_upl set_upc]. rewrite E. reflexivity.
+Qed.
+Lemma step_outs e c s x : wf_ev x -> exists add, outs (step e c s x) = add ++ outs s.
+Proof.
+  intros Wx. destruct (is_crash x) eqn:EC.
+  - destruct x; try discriminate. unfold step, crash.
+    destruct (boot_outs e c (set_tb (now s) (set_cnt0 (c_boot2 c) (emit (OReboot (now s)) s)))) as (a & E).
+    eexists (_ :: a ++ [OReboot (now s)]). cbn [outs emit set_outs]. rewrite E. cbn [outs set_tb set_cnt0 emit set_outs].
+    cbn [app]. rewrite <- app_assoc. reflexivity.
+  - apply (step_frame e c s x EC). intros dt ->. exact Wx.
+Qed.
+Lemma run_outs e c : forall evs s, Forall wf_ev evs -> exists add, outs (run_from e c s evs) = add ++ outs s.
+Proof.
+  induction evs as [|x evs IH]; intros s Wx; unfold run_from in *; cbn [fold_left]; [exists []; auto|]. inversion Wx; subst.
+  destruct (IH (step e c s x) H2) as (a & E). destruct (step_outs e c s x H1) as (b & E').
+  exists (a ++ b). rewrite E, E', app_assoc. reflexivity.
+Qed.
+
+Lemma step_J e S c s x s' :
+  s' = step e c s x -> wf_cfg c -> wf_ev x -> Good s -> J e S s -> NW s' -> Slack S (outs s') -> 0 <= S ->
+  J e S s' /\ finsrc s s'.
+Proof.
+  intros Es' W Wx G Jj N SL HS. unfold step in Es'.
+  set (s1 := match x with ESet _ _ _ _ => _ | _ => _ end) in *.
+  assert (P : passive s1 s') by (subst s'; apply passive_emit; exact Logic.I).
+  assert (N1 : NW s1) by (eapply NW_passive; eauto).
+  assert (SL1 : Slack S (outs s1)) by (eapply Slack_frame; [apply frame_passive; exact P|auto]).
+  destruct (step_spec e c s x s' ltac:(subst s'; reflexivity) W Wx G N) as (G' & Hn & E' & _ & _).
+  assert (K : Good s1 /\ now s <= now s1 /\ evo (ev_chan c x) s s1 /\ J e S s1 /\ finsrc s s1).
+  { destruct x; unfold s1 in *; cbn [ev_chan].
+    - destruct (channel_set_value_spec e c (u8 ch) v dur sender s _ eq_refl W G N1) as (G1 & F1 & _ & E1 & _).
+      destruct (csv_J e S c (u8 ch) v dur sender s _ eq_refl W G Jj N1 SL1 HS). split; [auto|]. split; [apply F1|]. auto.
+    - destruct (relay_switch_spec e c port hi s _ eq_refl W G N1) as (G1 & F1 & _ & E1 & _).
+      destruct (rsw_J e S c port hi s _ eq_refl W G Jj N1 SL1 HS). split; [auto|]. split; [apply F1|]. auto.
+    - destruct (advance_spec e c dt s _ eq_refl W G N1) as (G1 & E1 & Nw).
+      destruct (advance_J e S c dt s _ eq_refl W G Jj N1 SL1 HS). split; [auto|]. split; [pose proof (advance_frame e c dt s Wx) as F; apply F|]. auto.
+    - unfold crash in *.
+      remember (set_tb (now s) (set_cnt0 (c_boot2 c) (emit (OReboot (now s)) s))) as s0 eqn:Es0.
+      assert (N0 : now s0 = now s) by (subst s0; reflexivity).
+      assert (O0 : outs s0 = OReboot (now s) :: outs s) by (subst s0; reflexivity).
+      assert (TO : TrO s0).
+      { pose proof (Tr_TrO _ (g_tr _ G)) as []. constructor; rewrite ?O0, ?N0.
+        - intros * [E|H]; [discriminate|]. destruct (to_fin0 _ _ _ _ _ _ _ H) as (A & B & C & D). repeat split; auto. right; auto.
+        - cbn [fins]. auto. }
+      assert (C0 : 0 <= cnt0 s0) by (subst s0; cbn; apply (wf_boot2 _ W)).
+      assert (Ct : tb s0 <= now s0) by (subst s0; cbn; lia).
+      assert (OT0 : OTO e S (outs s0)).
+      { intros He tcb ch tg t0 dur u0 u H. rewrite O0 in H. destruct H as [E|H]; [discriminate|]. eapply (j_ot _ _ _ Jj); eauto. }
+      destruct (boot_spec e c s0 _ eq_refl W TO C0 Ct N1) as (G1 & A1 & A2 & A3 & (add & A4) & A5).
+      destruct (boot_J e S c s0 _ eq_refl W TO C0 Ct OT0 N1 SL1 HS) as (J1 & (add' & O' & Sr')).
+      split; [auto|]. split; [lia|]. split.
+      + intros y Hy Ay. right. split; auto. specialize (A5 y Hy Ay). lia.
+      + split; [auto|]. exists (add' ++ [OReboot (now s)]). split; [rewrite O', O0, <- app_assoc; reflexivity|].
+        intros tcb ch tg t0 dur u0 u H. apply in_app_or in H. destruct H as [H|[E|[]]]; [|discriminate].
+        right. specialize (Sr' _ _ _ _ _ _ _ H). lia.
+    - assert (G1 : Good (if (0 <=? ch) && (ch <? T2_COUNT) then set_time2 (setz (time2 s) ch ms) s else s)).
+      { destruct (_ && _); auto. eapply Good_cfgchange; [..|exact G]; reflexivity. }
+      split; [auto|]. destruct (_ && _).
+      + split; [cbn; lia|]. split; [apply evo_same_slots; reflexivity|]. split; [|exists []; split; [reflexivity|intros tcb ch0 tg t0 dur u0 u H; contradiction]].
+        destruct Jj. constructor; cbn; auto.
+      + split; [lia|]. split; [apply evo_refl|]. split; [auto|apply finsrc_refl].
+    - split; [eapply Good_cfgchange; [..|exact G]; reflexivity|]. split; [cbn; lia|]. split; [apply evo_same_slots; reflexivity|].
+      split; [destruct Jj; constructor; cbn; auto|exists []; split; [reflexivity|intros tcb ch0 tg t0 dur u0 u H; contradiction]].
+    - assert (P1 : passive s (emit OUnknown s)) by (apply passive_emit; exact Logic.I).
+      destruct (JF_passive e S _ _ P1 G Jj). split; [eapply Good_passive; eauto|]. split; [apply P1|]. split; [apply evo_passive; auto|auto]. }
+  destruct K as (G1 & Hn1 & E1 & J1 & FS1).
+  destruct (JF_passive e S _ _ P G1 J1) as [J' FS']. split; auto. eapply finsrc_trans; eauto.
+Qed.
+
+Lemma run_J e S c : forall evs s, wf_cfg c -> Forall wf_ev evs -> Good s -> J e S s -> NWrun e c s evs ->
+  Slack S (outs (run_from e c s evs)) -> 0 <= S -> Good (run_from e c s evs) /\ J e S (run_from e c s evs).
+Proof.
+  induction evs as [|x evs IH]; intros s W Wx G Jj N SL HS; [cbn; auto|]. change (run_from e c s (x :: evs)) with (run_from e c (step e c s x) evs) in *.
+  apply NWrun_cons in N. destruct N as [N1 N2]. inversion Wx; subst.
+  destruct (run_outs e c evs (step e c s x) H2) as (a & E).
+  assert (SL1 : Slack S (outs (step e c s x))) by (rewrite E in SL; eapply Slack_app; eauto).
+  destruct (step_spec e c s x _ eq_refl W H1 G N1) as (G1 & _).
+  destruct (step_J e S c s x _ eq_refl W H1 G Jj N1 SL1 HS) as (J1 & _).
+  apply IH; auto.
+Qed.
+
+Lemma start_J e S c : wf_cfg c -> NW (start e c) -> Slack S (outs (start e c)) -> 0 <= S -> J e S (start e c).
+Proof.
+  intros W N SL HS. unfold start in *. set (s := boot e c (init c)) in *.
+  assert (P : passive s (emit (st_line c s) s)) by (apply passive_emit; exact Logic.I).
+  assert (N1 : NW s) by (eapply NW_passive; eauto).
+  assert (SL1 : Slack S (outs s)) by (eapply Slack_frame; [apply frame_passive; exact P|auto]).
+  assert (TO : TrO (init c)) by (constructor; cbn; [intros; contradiction|constructor]).
+  assert (C0 : 0 <= cnt0 (init c)) by (cbn; apply (wf_boot _ W)).
+  assert (Ct : tb (init c) <= now (init c)) by (cbn; lia).
+  assert (OT0 : OTO e S (outs (init c))) by (intros _ tcb ch tg t0 dur u0 u H; contradiction).
+  destruct (boot_spec e c (init c) s eq_refl W TO C0 Ct N1) as (G & _).
+  destruct (boot_J e S c (init c) s eq_refl W TO C0 Ct OT0 N1 SL1 HS) as (Jj & _).
+  eapply J_passive; eauto.
+Qed.
+
+(* ---------- on time (repaired countdown) ---------- *)
+Section OnTime.
+Variable c : cfg.
+Hypothesis W : wf_cfg c.
+Variable evs : list ev.
+Hypothesis Wev : Forall wf_ev evs.
+Hypothesis H_nowrap : NWrun true c (start true c) evs.
+Variable S : Z.
+Hypothesis HS : 0 <= S.
+(* H_slack: every evaluation of the slot table (timer callback, or the one made by a new command) started no later
+   than S after the due time of the shared timer: S covers the lateness of the callback and the busy-waits of
+   relay operations that delayed it *)
+Hypothesis H_slack : Slack S (outs (run_from true c (start true c) evs)).
+
+Theorem on_time_thm :
+  forall tcb ch tg t0 dur u0 u, In (GFinish tcb ch tg t0 dur u0 u) (run true c evs) ->
+    tcb < t0 + dur * 1000 + CD_MIN * 1000 + S + 2 * (8 * OP).
+Proof.
+  intros * H. unfold run in H. apply in_rev in H.
+  destruct (run_outs true c evs (start true c) Wev) as (a & E).
+  assert (SL0 : Slack S (outs (start true c))) by (rewrite E in H_slack; eapply Slack_app; eauto).
+  pose proof (H_nowrap 0%nat) as N0. cbn in N0.
+  destruct (run_J true S c evs (start true c) W Wev (start_good true c W N0) (start_J true S c W N0 SL0 HS) H_nowrap H_slack HS) as (_ & Jj).
+  pose proof (j_ot _ _ _ Jj eq_refl _ _ _ _ _ _ _ H) as B. unfold OTB, BQ in B. lia.
+Qed.
+End OnTime.
+
+(* ---------- liveness: a completed advance leaves no due timer behind ---------- *)
+Lemma adv_done e c fuel : forall end_ s, In OFuel (outs (adv e c fuel end_ s)) \/ pick (adv e c fuel end_ s) end_ = None.
+Proof.
+  induction fuel as [|k IH]; intros end_ s; cbn [adv].
+  - left. left. reflexivity.
+  - destruct (pick s end_) eqn:EP; auto.
+Qed.
+Lemma advance_done e c dt s : let s' := advance e c dt s in
+  In OFuel (outs s') \/ (t_on (tcd s') = true -> now s + dt < t_due (tcd s')).
+Proof.
+  cbv zeta. unfold advance. set (s1 := adv _ _ _ _ _).
+  destruct (adv_done e c (Z.to_nat (dt / 20000 + 64)) (now s + dt) s) as [H|H]; fold s1 in H.
+  - left. destruct (_ <? _); auto.
+  - right. pose proof (pick_none _ _ H TCD) as D. unfold due_ok in D. cbn [get_t] in D.
+    assert (K : t_on (tcd s1) = true -> now s + dt < t_due (tcd s1)).
+    { intros On. rewrite On in D. cbn in D. apply Z.leb_gt in D. lia. }
+    destruct (_ <? _); auto.
+Qed.
+
+(* With the repaired countdown(): a slot that is still running after an advance that reached time T was armed less than
+   dur + 50 ms + 8 relay operations before T.  Hence once an advance reaches t0 + dur + 50 ms + 8*OP the slot is gone. *)
+Theorem fires_by_thm c S s dt :
+  wf_cfg c -> 0 <= dt -> Good s -> J true S s -> 0 <= S ->
+  let s' := advance true c dt s in
+  NW s' -> Slack S (outs s') -> ~ In OFuel (outs s') ->
+  forall x, In x (slots s') -> active x = true -> now s + dt < g_t0 x + g_dur x * 1000 + CD_MIN * 1000 + 8 * OP.
+Proof.
+  intros W Hdt G Jj HS s' N SL NF x Hx Ax.
+  destruct (advance_spec true c dt s s' eq_refl W G N) as (G' & _ & _).
+  destruct (advance_J true S c dt s s' eq_refl W G Jj N SL HS) as (J' & _).
+  destruct (advance_done true c dt s) as [F|D]; [contradiction|]. fold s' in D.
+  destruct (g_t1 _ G' x Hx Ax) as (On & (_ & Hc) & Hp).
+  specialize (D On). pose proof (j_q _ _ _ J' eq_refl x Hx Ax) as Q.
+  destruct (i_ok _ (g_inv _ G') x Hx Ax) as [Sch Sleft Sdur Sacct Slast Su0 (T1' & T2' & T3')].
+  assert (Gap : g_tl x - g_t0 x < (g_dur x - s_left x + 1) * 1000).
+  { apply rd_diff_hi with (s := s'). rewrite <- Slast, <- Su0. lia. }
+  pose proof (period_arith (g_dur x) (s_left x) ltac:(lia)) as PA. unfold BQ in Q. nia.
+Qed.
+
+(* ---------- cancellation ---------- *)
+Lemma slack_exists l : exists S, 0 <= S /\ Slack S l.
+Proof.
+  induction l as [|o l (S & HS & SL)]; [exists 0; split; [lia|intros due t []]|].
+  destruct o; try (exists S; split; auto; intros due' t' [E|H]; [discriminate|apply SL; auto]).
+  exists (Z.max S (t - due)). split; [lia|]. intros due' t' [E|H].
+  - injection E as <- <-. lia.
+  - specialize (SL _ _ H). lia.
+Qed.
+Lemma Slack_mono S S' l : S <= S' -> Slack S l -> Slack S' l.
+Proof. intros H SL due t Hin. specialize (SL _ _ Hin). lia. Qed.
+
+Lemma fresh_step e c ch t s x s' :
+  s' = step e c s x -> wf_cfg c -> wf_ev x -> Good s -> NW s' -> t <= now s -> fresh ch t s -> fresh ch t s'.
+Proof.
+  intros Es' W Wx G N Ht F y Hy Ay Ey.
+  destruct (step_spec e c s x s' Es' W Wx G N) as (_ & _ & E & _).
+  destruct (E y Hy Ay) as [(x0 & Hx0 & Ax0 & (I1 & I2 & _) & _)|[A _]]; [|lia].
+  rewrite <- I2. apply F; auto. congruence.
+Qed.
+
+(* after a command on channel ch handled at time t1 (state s2: every running slot of ch was armed at or after t1),
+   whatever follows, every later switch-back of ch belongs to a timer armed at or after t1 *)
+Lemma post_fresh e S c ch t1 : forall post s2,
+  wf_cfg c -> Forall wf_ev post -> Good s2 -> J e S s2 -> fresh ch t1 s2 -> t1 <= now s2 -> NWrun e c s2 post ->
+  Slack S (outs (run_from e c s2 post)) -> 0 <= S ->
+  forall tcb tg t0 dur u0 u, In (GFinish tcb ch tg t0 dur u0 u) (outs (run_from e c s2 post)) ->
+    In (GFinish tcb ch tg t0 dur u0 u) (outs s2) \/ t1 <= t0.
+Proof.
+  induction post as [|x post IH]; intros s2 W Wp G Jj F Ht N SL HS tcb tg t0 dur u0 u H; [left; exact H|].
+  change (run_from e c s2 (x :: post)) with (run_from e c (step e c s2 x) post) in *.
+  apply NWrun_cons in N. destruct N as [N1 N2]. inversion Wp; subst.
+  destruct (run_outs e c post (step e c s2 x) H3) as (a & Ea).
+  assert (SL1 : Slack S (outs (step e c s2 x))) by (rewrite Ea in SL; eapply Slack_app; eauto).
+  destruct (step_spec e c s2 x _ eq_refl W H2 G N1) as (G1 & Hn & E & _ & _).
+  destruct (step_J e S c s2 x _ eq_refl W H2 G Jj N1 SL1 HS) as (J1 & (add & O & Sr)).
+  pose proof (fresh_step e c ch t1 s2 x _ eq_refl W H2 G N1 Ht F) as F1.
+  destruct (IH (step e c s2 x) W H3 G1 J1 F1 ltac:(lia) N2 SL HS _ _ _ _ _ _ H) as [Hin|Hl]; auto.
+  rewrite O in Hin. apply in_app_or in Hin. destruct Hin as [Hin|Hin]; auto.
+  right. destruct (Sr _ _ _ _ _ _ _ Hin) as [(x0 & Hx0 & Ax0 & Ec & Et)|Hl]; [rewrite <- Et; apply F; auto|lia].
+Qed.
+
+Lemma run_from_app e c s a b : run_from e c s (a ++ b) = run_from e c (run_from e c s a) b.
+Proof. unfold run_from. apply fold_left_app. Qed.
+Lemma NWrun_app e c s a b : NWrun e c s (a ++ b) -> NWrun e c s a /\ NWrun e c (run_from e c s a) b.
+Proof.
+  intros H. split.
+  - intros k. destruct (Nat.le_ge_cases k (length a)) as [L|L].
+    + specialize (H k). rewrite firstn_app in H. replace (k - length a)%nat with 0%nat in H by lia.
+      cbn [firstn] in H. rewrite app_nil_r in H. exact H.
+    + specialize (H (length a)). rewrite firstn_app in H. rewrite Nat.sub_diag in H. cbn [firstn] in H.
+      rewrite app_nil_r, firstn_all in H. rewrite firstn_all2 by lia. exact H.
+  - intros k. specialize (H (length a + k)%nat). rewrite firstn_app_2, run_from_app in H. exact H.
+Qed.
+
+(* a command event on channel ch of the board *)
+Definition cmd_on (c : cfg) (x : ev) (ch : Z) : Prop :=
+  match x with
+  | ESet ch' _ _ _ => u8 ch' = ch /\ exists r, In r (c_relays c) /\ r_chan r = ch
+  | ESw port _ => last_chan (c_relays c) port (-1) = ch /\ 0 <= ch
+  | _ => False
+  end.
+
+Theorem cancel_thm e c pre x post ch :
+  wf_cfg c -> Forall wf_ev (pre ++ x :: post) -> NWrun e c (start e c) (pre ++ x :: post) -> cmd_on c x ch ->
+  let s1 := run_from e c (start e c) pre in
+  let s2 := step e c s1 x in
+  forall tcb tg t0 dur u0 u, In (GFinish tcb ch tg t0 dur u0 u) (outs (run_from e c (start e c) (pre ++ x :: post))) ->
+    In (GFinish tcb ch tg t0 dur u0 u) (outs s2) \/ now s1 <= t0.
+Proof.
+  intros W Wev N Cm s1 s2.
+  destruct (slack_exists (outs (run_from e c (start e c) (pre ++ x :: post)))) as (S & HS & SL).
+  apply Forall_app in Wev. destruct Wev as [Wpre Wxp]. inversion Wxp as [|? ? Wx Wpost]; subst.
+  apply NWrun_app in N. destruct N as [Npre Nxp]. fold s1 in Nxp.
+  pose proof (Npre 0%nat) as N0. cbn in N0.
+  rewrite run_from_app in *. fold s1 in SL |- *.
+  change (run_from e c s1 (x :: post)) with (run_from e c s2 post) in *.
+  destruct (run_outs e c post s2 Wpost) as (a2 & E2). destruct (step_outs e c s1 x Wx) as (ax & Ex). fold s2 in Ex.
+  destruct (run_outs e c pre (start e c) Wpre) as (a1 & E1). fold s1 in E1.
+  assert (SL2 : Slack S (outs s2)) by (rewrite E2 in SL; eapply Slack_app; eauto).
+  assert (SL1 : Slack S (outs s1)) by (rewrite Ex in SL2; eapply Slack_app; eauto).
+  assert (SL0 : Slack S (outs (start e c))) by (rewrite E1 in SL1; eapply Slack_app; eauto).
+  destruct (run_J e S c pre (start e c) W Wpre (start_good e c W N0) (start_J e S c W N0 SL0 HS) Npre SL1 HS) as (G1 & J1).
+  fold s1 in G1, J1.
+  apply NWrun_cons in Nxp. destruct Nxp as [N2 Npost]. fold s2 in N2, Npost.
+  destruct (step_spec e c s1 x s2 eq_refl W Wx G1 N2) as (G2 & Hn & _).
+  destruct (step_J e S c s1 x s2 eq_refl W Wx G1 J1 N2 SL2 HS) as (J2 & _).
+  assert (F2 : fresh ch (now s1) s2).
+  { unfold s2, step. set (sm := match x with ESet _ _ _ _ => _ | _ => _ end).
+    assert (P : passive sm (emit (st_line c sm) sm)) by (apply passive_emit; exact Logic.I).
+    assert (Nm : NW sm) by (eapply NW_passive; [exact P|exact N2]).
+    eapply fresh_passive; [exact P|]. destruct x; cbn [cmd_on] in Cm; try contradiction; unfold sm.
+    - destruct Cm as (Eu & r & Hr & Er). unfold sm in Nm. rewrite Eu in *.
+      destruct (channel_set_value_spec e c ch v dur sender s1 _ eq_refl W G1 Nm) as (_ & _ & _ & _ & Fr). eapply Fr; eauto.
+    - destruct Cm as (El & Hc).
+      destruct (relay_switch_spec e c port hi s1 _ eq_refl W G1 Nm) as (_ & _ & _ & _ & Fr). rewrite El in Fr. auto. }
+  apply (post_fresh e S c ch (now s1) post s2 W Wpost G2 J2 F2 Hn Npost SL HS).
+Qed.
+
+(* ---------- published remaining time ---------- *)
+Definition rem (s : st) (ch : Z) : Z := fst (fst (get_state (slots s) ch (0, 0, 0))).
+Fixpoint lastm (l : list slot) (ch : Z) : option slot :=
+  match l with
+  | [] => None
+  | x :: t => match lastm t ch with Some y => Some y | None => if s_chan x =? ch then Some x else None end
+  end.
+Lemma get_state_lastm l ch : forall acc,
+  get_state l ch acc = match lastm l ch with Some x => (s_left x, s_target x, s_sender x) | None => acc end.
+Proof.
+  induction l as [|x l IH]; intros acc; cbn; auto. rewrite IH. destruct (lastm l ch); auto. destruct (s_chan x =? ch); auto.
+Qed.
+Lemma lastm_some l ch x : lastm l ch = Some x -> In x l /\ s_chan x = ch.
+Proof.
+  induction l as [|y l IH]; cbn; [discriminate|]. destruct (lastm l ch) eqn:E.
+  - intros H. injection H as <-. destruct (IH eq_refl). auto.
+  - destruct (s_chan y =? ch) eqn:Ec; [|discriminate]. intros H. injection H as <-. apply Z.eqb_eq in Ec. auto.
+Qed.
+Lemma lastm_none l ch : lastm l ch = None -> forall x, In x l -> s_chan x <> ch.
+Proof.
+  induction l as [|y l IH]; cbn; [intros _ x []|]. destruct (lastm l ch) eqn:E; [discriminate|].
+  destruct (s_chan y =? ch) eqn:Ec; [discriminate|]. apply Z.eqb_neq in Ec. intros _ x [<-|Hx]; auto.
+Qed.
+Lemma rem_spec s ch : Inv s -> 0 <= ch < 255 ->
+  (exists x, In x (slots s) /\ active x = true /\ s_chan x = ch /\ rem s ch = s_left x) \/
+  ((forall x, In x (slots s) -> s_chan x <> ch) /\ rem s ch = 0).
+Proof.
+  intros I Hch. unfold rem. rewrite get_state_lastm. destruct (lastm (slots s) ch) as [x|] eqn:E.
+  - left. destruct (lastm_some _ _ _ E) as [Hx Ec]. exists x. repeat split; auto.
+    destruct (i_free _ I x Hx) as [A|A]; auto. lia.
+  - right. split; auto. apply (lastm_none _ _ E).
+Qed.
+Lemma slot_unique s x y : Inv s -> In x (slots s) -> In y (slots s) -> s_chan x = s_chan y -> s_chan x <> 255 -> x = y.
+Proof.
+  intros I Hx Hy E Ne. destruct (in_slot_at s x Hx) as (i & Hi & <-). destruct (in_slot_at s y Hy) as (j & Hj & <-).
+  rewrite (i_len _ I) in *. assert (i = j) by (apply (i_uniq _ I); auto). subst. reflexivity.
+Qed.
+
+(* between commands on a channel (and without a restart) its published remaining time never increases *)
+Theorem remaining_monotone_thm e c s x ch :
+  wf_cfg c -> wf_ev x -> Good s -> NW (step e c s x) -> 0 <= ch < 255 -> ~ ev_chan c x ch ->
+  rem (step e c s x) ch <= rem s ch.
+Proof.
+  intros W Wx G N Hch NC.
+  destruct (step_spec e c s x _ eq_refl W Wx G N) as (G' & _ & E & _).
+  assert (R0 : 0 <= rem s ch).
+  { destruct (rem_spec s ch (g_inv _ G) Hch) as [(x0 & Hx0 & Ax0 & _ & ->)|[_ ->]]; [|lia].
+    destruct (i_ok _ (g_inv _ G) x0 Hx0 Ax0). lia. }
+  destruct (rem_spec (step e c s x) ch (g_inv _ G') Hch) as [(y & Hy & Ay & Ec & ->)|[_ ->]]; [|lia].
+  destruct (E y Hy Ay) as [(x0 & Hx0 & Ax0 & (I1 & _) & Hl & _)|[_ A]]; [|rewrite Ec in A; contradiction].
+  destruct (rem_spec s ch (g_inv _ G) Hch) as [(x1 & Hx1 & Ax1 & Ec1 & ->)|[No _]]; [|exfalso; apply (No x0 Hx0); congruence].
+  assert (x1 = x0) by (apply (slot_unique s x1 x0 (g_inv _ G) Hx1 Hx0); [congruence|lia]). subst. lia.
+Qed.
+
+(* ---------- restart: what the restore branch of supla_esp_gpio_init does for one relay ---------- *)
+Lemma pin_gpio_write port v s : 0 <= port -> pin (gpio_write port v s) port = v.
+Proof.
+  intros Hp. unfold gpio_write. destruct (Bool.eqb (pin s port) v) eqn:E.
+  - apply eqb_prop in E. auto.
+  - unfold pin. cbn [gout emit set_outs set_gout]. destruct v; [apply Z.setbit_eq|apply Z.clearbit_eq]; auto.
+Qed.
+Lemma gout_save_state ms s : gout (save_state ms s) = gout s.
+Proof. unfold save_state. destruct (0 <? ms); reflexivity. Qed.
+Lemma pin_relay_hi c port hi a r s :
+  0 <= port -> find_gpio (c_relays c) 0 port = Some (a, r) -> hi = 0 \/ hi = 1 ->
+  pin (relay_hi c port hi s) port = xorb (hi =? 1) (hasf (r_flags r) FLAG_LO_LEVEL).
+Proof.
+  intros Hp EF Hhi. unfold relay_hi. rewrite EF.
+  assert (E255 : (hi =? 255) = false) by (destruct Hhi; subst; reflexivity). rewrite E255.
+  set (lvl := if hasf (r_flags r) FLAG_LO_LEVEL then _ else hi).
+  assert (EL : (lvl =? 1) = xorb (hi =? 1) (hasf (r_flags r) FLAG_LO_LEVEL)).
+  { unfold lvl. destruct consts_ok. rewrite cf_hi0, cf_lo0. destruct (hasf (r_flags r) FLAG_LO_LEVEL); destruct Hhi; subst; reflexivity. }
+  assert (K : pin (delay_us 10 (delay_us DOUBLE_TRY_US (gpio_write port (lvl =? 1) (delay_us 10 s)))) port = (lvl =? 1)).
+  { unfold pin. cbn [gout delay_us set_now]. apply (pin_gpio_write port (lvl =? 1) (delay_us 10 s) Hp). }
+  rewrite <- EL. destruct (_ || _); [|exact K].
+  unfold pin in *. rewrite gout_save_state. cbn [gout set_ram_relay]. exact K.
+Qed.
+
+Lemma disarm_chfl c ch s : chfl (disarm c ch s) = chfl s.
+Proof.
+  unfold disarm. destruct (find_slot _ _ _); auto. destruct (0 <? _); auto.
+  set (s1 := set_slots _ s). pose proof (passive_t2_set ch 0 s1) as P2.
+  destruct (chflags_of c ch (t2_set ch 0 s1)); [destruct (hasf _ _)|]; try (rewrite (pa_chfl _ _ P2); reflexivity).
+  rewrite (pa_chfl _ _ (passive_ext_changed c ch _)), (pa_chfl _ _ P2). reflexivity.
+Qed.
+Lemma disarm_free c ch s : (exists x, In x (slots s) /\ s_chan x = 255) -> exists z, In z (slots (disarm c ch s)) /\ s_chan z = 255.
+Proof.
+  intros (x & Hx & Ex). unfold disarm. destruct (find_slot (slots s) 0 ch) as [j|] eqn:EJ; [|exists x; auto].
+  set (y := slot_release _ _ _). set (s1 := set_slots (upd (slots s) (Z.to_nat j) y) s).
+  assert (K : exists z, In z (slots s1) /\ s_chan z = 255).
+  { unfold s1. cbn [slots set_slots]. destruct (In_nth _ _ slot_free Hx) as (k & Hk & Ek).
+    destruct (Nat.eq_dec k (Z.to_nat j)) as [->|Ne].
+    - exists y. split; [|reflexivity].
+      assert (HI : In (nth (Z.to_nat j) (upd (slots s) (Z.to_nat j) y) slot_free) (upd (slots s) (Z.to_nat j) y)) by (apply nth_In; rewrite upd_length; exact Hk).
+      rewrite nth_upd_eq in HI by exact Hk. exact HI.
+    - exists x. split; auto.
+      assert (HI : In (nth k (upd (slots s) (Z.to_nat j) y) slot_free) (upd (slots s) (Z.to_nat j) y)) by (apply nth_In; rewrite upd_length; exact Hk).
+      rewrite nth_upd_ne in HI by auto. rewrite Ek in HI. exact HI. }
+  destruct K as (z & Hz & Ez). exists z. split; auto.
+  destruct (0 <? _); auto.
+  pose proof (passive_t2_set ch 0 s1) as P2.
+  destruct (chflags_of c ch (t2_set ch 0 s1)); [destruct (hasf _ _)|]; try (rewrite (pa_slots _ _ P2); exact Hz).
+  rewrite (pa_slots _ _ (passive_ext_changed c ch _)), (pa_slots _ _ P2). exact Hz.
+Qed.
+
+Theorem restore_one_thm e c s a r :
+  wf_cfg c -> Good s -> In r (c_relays c) ->
+  find_chan (c_relays c) 0 (r_chan r) = Some (a, r) -> find_gpio (c_relays c) 0 (r_gpio r) = Some (a, r) ->
+  hasf (r_flags r) FLAG_RESTORE_FORCE || hasf (r_flags r) FLAG_RESTORE = true ->
+  let v := getz (ram_relay s) a in
+  let T := getz (ram_t2 s) (r_chan r) in
+  let s' := restore_relay e c s (a, r) in
+  v = 0 \/ v = 1 -> NW s' ->
+  (* the relay comes back in its saved state ... *)
+  pin s' (r_gpio r) = xorb (v =? 1) (hasf (r_flags r) FLAG_LO_LEVEL) /\
+  (* ... and, when a remaining time was saved and the timer could have been armed before the restart (on for T, or off
+     for T on a channel whose countdown capability is already known and that is no staircase channel), it is armed again
+     for the saved remaining time with the opposite target *)
+  (0 < T < 2147483648 -> (exists x, In x (slots s) /\ s_chan x = 255) ->
+   v = 1 \/ (getz (time2 s) (r_chan r) = 0 /\ hasf (getz (chfl s) a) CHFLAG_COUNTDOWN = true) ->
+   In (GArm (now s) (r_chan r) T (1 - v)) (outs s')).
+Proof.
+  intros W G Hr EFC EFG Hfl v T s' Hv N.
+  pose proof (wf_chan _ W r Hr) as Hc. pose proof (wf_gpio _ W r Hr) as Hg.
+  destruct consts_ok. destruct cf_t3 as [CT1 CT2].
+  unfold s', restore_relay in *. rewrite Hfl in *.
+  assert (Lt : (0 <=? r_chan r) && (r_chan r <? ST_T2_COUNT) = true) by (apply andb_true_iff; split; [apply Z.leb_le|apply Z.ltb_lt]; lia).
+  rewrite Lt in *. fold v T in N |- *.
+  set (s1 := set_duration_timer e c (r_chan r) (s8 v) (s32 T) 0 s) in *.
+  split; [apply (pin_relay_hi c (r_gpio r) v a r s1); auto; lia|].
+  intros HT (xf & Hxf & Exf) Hcase.
+  assert (P : passive s1 (relay_hi c (r_gpio r) v s1)) by apply passive_relay_hi.
+  destruct (pa_outs _ _ P) as (ap & Eo & _). rewrite Eo. apply in_or_app. right.
+  assert (N1 : NW s1) by (eapply NW_passive; eauto).
+  assert (E8 : s8 v = v) by (destruct Hv as [->| ->]; reflexivity).
+  assert (E32 : s32 T = T) by (unfold s32; rewrite Z.mod_small by lia; destruct (T <? 2147483648) eqn:E; auto; apply Z.ltb_ge in E; lia).
+  unfold s1 in *. rewrite E8, E32 in *. clear s1.
+  unfold set_duration_timer in *.
+  set (stair := (r_chan r <? ST_T2_COUNT) && (r_chan r <? T2_COUNT) && (0 <? getz (time2 s) (r_chan r))) in *.
+  assert (Hst : stair && (v =? 0) = false).
+  { destruct Hcase as [->|[Z0 _]]; [apply andb_false_r|]. unfold stair. rewrite Z0. cbn. rewrite !andb_false_r. reflexivity. }
+  rewrite Hst in *.
+  set (dur1 := if stair then _ else T) in *.
+  assert (Hd : dur1 = T).
+  { unfold dur1. destruct stair; auto. destruct (v =? 0) eqn:E0; [cbn in Hst; discriminate|].
+    fold T. rewrite (u32_small T) by lia. rewrite Z.eqb_refl. cbn. destruct (T =? 0) eqn:ET; [apply Z.eqb_eq in ET; lia|reflexivity]. }
+  rewrite Hd in *. rewrite u8_small in * by lia.
+  destruct (disarm_spec c (r_chan r) s ltac:(lia) G) as (G1 & F1 & D1 & C1 & Nn1 & NoCh & E1 & (ad & Od & _)).
+  set (s1 := disarm c (r_chan r) s) in *.
+  assert (HT' : (0 <? T) = true) by (apply Z.ltb_lt; lia). rewrite HT' in *. rewrite EFC in *.
+  set (f := getz (chfl s1) a) in *.
+  assert (Ef : f = getz (chfl s) a) by (unfold f, s1; rewrite disarm_chfl; reflexivity).
+  assert (Hcond : (v =? 1) || hasf f CHFLAG_COUNTDOWN = true).
+  { destruct Hcase as [->|[_ Hf]]; [reflexivity|]. rewrite Ef, Hf. apply orb_true_r. }
+  rewrite Hcond in *. rewrite (u32_small T) in * by lia.
+  set (s2 := countdown e c T (r_gpio r) (r_chan r) (if v =? 0 then 1 else 0) 0 s1) in *.
+  assert (P2 : passive s2 (if hasf f CHFLAG_COUNTDOWN then ext_changed c (r_chan r) s2 else s2))
+    by (destruct (hasf f _); [apply passive_ext_changed|apply passive_refl]).
+  destruct (pa_outs _ _ P2) as (a2 & Eo2 & _). rewrite Eo2. apply in_or_app. right.
+  assert (N2 : NW s2) by (eapply NW_passive; eauto).
+  destruct (countdown_arm e c T (r_gpio r) (r_chan r) (if v =? 0 then 1 else 0) 0 s1 s2 eq_refl (g_inv _ G1) (g_tr _ G1) ltac:(lia) ltac:(lia) NoCh N2)
+    as [[_ NoFree]|(s3 & E' & I3 & T3 & F03 & Now3 & _ & _ & _ & _ & (add & O3 & _ & HA))].
+  - exfalso. destruct (disarm_free c (r_chan r) s (ex_intro _ xf (conj Hxf Exf))) as (z & Hz & Ez). apply (NoFree z); auto.
+  - rewrite E'.
+    assert (F3' : frame s3 (if e then cd_cb c (if t_on (tcd s3) then t_due (tcd s3) else now s3) s3 else startstop s3))
+      by (destruct e; [apply cd_cb_frame|apply frame_startstop]).
+    destruct (fr_outs _ _ F3') as (a3 & Eo3). rewrite Eo3. apply in_or_app. right. rewrite O3. apply in_or_app. left.
+    replace (1 - v) with (if v =? 0 then 1 else 0) by (destruct Hv as [->| ->]; reflexivity).
+    rewrite <- Nn1. exact HA.
+Qed.
+
+(* ---------- the hypotheses are satisfiable: decidable versions, evaluated on the witness histories ---------- *)
+Definition nwb (s : st) : bool := cnt0 s + (now s - tb s) <? 4294967296.
+Definition nwrunb (e : bool) (c : cfg) (evs : list ev) : bool :=
+  forallb (fun k => nwb (run_from e c (start e c) (firstn k evs))) (seq 0 (S (length evs))).
+Lemma nwrunb_ok e c evs : nwrunb e c evs = true -> NWrun e c (start e c) evs.
+Proof.
+  intros H k. unfold nwrunb in H. rewrite forallb_forall in H.
+  assert (K : forall j, (j <= length evs)%nat -> NW (run_from e c (start e c) (firstn j evs))).
+  { intros j Hj. specialize (H j). unfold nwb in H. unfold NW. apply Z.ltb_lt. apply H. apply in_seq. lia. }
+  destruct (Nat.le_ge_cases k (length evs)); [apply K; auto|]. rewrite firstn_all2 by lia. rewrite <- (firstn_all evs). apply K. lia.
+Qed.
+Definition slackb (S : Z) (l : list out) : bool :=
+  forallb (fun o => match o with GEvalStart due t => t <=? due + S | _ => true end) l.
+Lemma slackb_ok S l : slackb S l = true -> Slack S l.
+Proof.
+  intros H due t Hin. unfold slackb in H. rewrite forallb_forall in H. specialize (H _ Hin). cbn in H. apply Z.leb_le in H. exact H.
+Qed.
+Definition wf_cfgb (c : cfg) : bool :=
+  forallb (fun r => (0 <=? r_chan r) && (r_chan r <? 8) && (0 <=? r_gpio r) && (r_gpio r <? 16)) (c_relays c) &&
+  forallb (fun j => 0 <=? j) (c_late c) && (0 <=? c_boot c) && (0 <=? c_boot2 c).
+Lemma wf_cfgb_ok c : wf_cfgb c = true -> wf_cfg c.
+Proof.
+  unfold wf_cfgb. rewrite !andb_true_iff, !forallb_forall. intros [[[A B] C] D].
+  constructor; try (apply Z.leb_le; auto).
+  - intros r Hr. specialize (A r Hr). rewrite !andb_true_iff in A. destruct A as [[[A1 A2] _] _]. apply Z.leb_le in A1. apply Z.ltb_lt in A2. lia.
+  - intros r Hr. specialize (A r Hr). rewrite !andb_true_iff in A. destruct A as [[_ A3] A4]. apply Z.leb_le in A3. apply Z.ltb_lt in A4. lia.
+  - intros j Hj. apply Z.leb_le. auto.
+Qed.
+Definition wf_evsb (evs : list ev) : bool := forallb (fun x => match x with EAdv dt => 0 <=? dt | _ => true end) evs.
+Lemma wf_evsb_ok evs : wf_evsb evs = true -> Forall wf_ev evs.
+Proof.
+  unfold wf_evsb. rewrite forallb_forall. intros H. apply Forall_forall. intros x Hx. specialize (H x Hx).
+  destruct x; cbn; auto. apply Z.leb_le. auto.
+Qed.
+Lemma hypotheses_satisfiable_thm :
+  wf_cfg storm_cfg /\ Forall wf_ev early_evs /\ NWrun true storm_cfg (start true storm_cfg) early_evs /\
+  Slack 0 (outs (run_from true storm_cfg (start true storm_cfg) early_evs)) /\
+  wf_cfg serial_cfg /\ Forall wf_ev serial_evs /\ NWrun true serial_cfg (start true serial_cfg) serial_evs /\
+  Slack 30160 (outs (run_from true serial_cfg (start true serial_cfg) serial_evs)) /\
+  wf_cfg (late_cfg false) /\ Forall wf_ev late_evs /\ NWrun false (late_cfg false) (start false (late_cfg false)) late_evs.
+Proof.
+  split; [apply wf_cfgb_ok; vm_compute; reflexivity|]. split; [apply wf_evsb_ok; vm_compute; reflexivity|].
+  split; [apply nwrunb_ok; vm_compute; reflexivity|]. split; [apply slackb_ok; vm_compute; reflexivity|].
+  split; [apply wf_cfgb_ok; vm_compute; reflexivity|]. split; [apply wf_evsb_ok; vm_compute; reflexivity|].
+  split; [apply nwrunb_ok; vm_compute; reflexivity|]. split; [apply slackb_ok; vm_compute; reflexivity|].
+  split; [apply wf_cfgb_ok; vm_compute; reflexivity|]. split; [apply wf_evsb_ok; vm_compute; reflexivity|].
+  apply nwrunb_ok; vm_compute; reflexivity.
 Qed.
